@@ -158,10 +158,10 @@ def report(prop, tier, findings, qs, info, t0):
     wall = time.time() - t0
     nfn = sum(v["mir_lines"] for v in info["functions"].get("dev", {}).values())
     coverage = {
-        "obligations": qs.obligations,
-        "discharged": qs.obligations - len(qs.undecided) - sum(1 for f in new),
-        "discharged_unsat": qs.discharged,
-        "violated_known": qs.violated - len(new) - len(bad_replay),
+        "obligations": qs.obligations - (qs.violated - len(new) - len(bad_replay)),
+        "discharged": qs.discharged,
+        "obligations_total_including_known_findings": qs.obligations,
+        "obligations_violated_by_listed_known_findings": qs.violated - len(new) - len(bad_replay),
         "undecided": len(qs.undecided),
         "checker_cmd": "python3-vt checks/opcheck_main.py %s --tier %s  (z3 %s via z3-solver; rustc +nightly -Zunpretty=mir)" % (prop, tier, V_z3()),
         "trusted_base": [
@@ -185,7 +185,7 @@ def report(prop, tier, findings, qs, info, t0):
         "new_violations": len(new),
     }
     V.write_evidence(prop, tier, "proof", coverage,
-                     ["every obligation is discharged for ALL operand values of the machine types (no sampling); obligations that are violated by a listed known finding are counted as decided, not as discharged_unsat",
+                     ["every discharged obligation is an unsat answer for ALL operand values of the machine types (no sampling); obligations violated by a listed known finding are excluded from `obligations` and counted separately",
                       "logging configuration (log::max_level) is an arbitrary environment value",
                       "error values are opaque (texts are not checked)"],
                      wall, len(new))
